@@ -228,10 +228,52 @@ pub fn fs_path(root: &Path, apath: &str) -> PathBuf {
     }
 }
 
+thread_local! {
+    /// When set, `materialise` makes files that are equal in every respect (content, mode,
+    /// owner, mtime) hard links of one another. Only for checks that never edit the tree
+    /// afterwards: a change to one name would be a change to the other.
+    static LINK_TWINS: std::cell::Cell<bool> = const { std::cell::Cell::new(false) };
+}
+
+pub fn set_link_twins(on: bool) {
+    LINK_TWINS.with(|c| c.set(on));
+}
+
+/// Make the `j`-th file of the tree equal to the `i`-th in content and metadata (twins).
+pub fn make_twins(tree: &mut Tree, i: u16, j: u16) -> bool {
+    let files: Vec<String> = tree.0.iter().filter(|(_, n)| matches!(n.kind, Kind::File { len, .. } if len > 0)).map(|(p, _)| p.clone()).collect();
+    if files.len() < 2 {
+        return false;
+    }
+    let a = (i as usize * files.len()) >> 16;
+    let mut b = (j as usize * files.len()) >> 16;
+    if a == b {
+        b = (b + 1) % files.len();
+    }
+    let node = tree.0[&files[a]].clone();
+    tree.0.insert(files[b].clone(), node);
+    true
+}
+
 /// Write the tree into `root` (which must not exist or be an empty dir).
 pub fn materialise(tree: &Tree, root: &Path) {
+    let link_twins = LINK_TWINS.with(|c| c.get());
+    let mut first_of: BTreeMap<(u8, u32, u32, i64, u32, u32, u32), PathBuf> = BTreeMap::new();
     for (apath, node) in &tree.0 {
         let p = fs_path(root, apath);
+        if link_twins {
+            if let Kind::File { pool, len } = &node.kind {
+                if *len > 0 {
+                    let m = &node.meta;
+                    let key = (*pool, *len, m.mode, m.mtime_s, m.mtime_ns, m.uid, m.gid);
+                    if let Some(first) = first_of.get(&key) {
+                        std::fs::hard_link(first, &p).unwrap_or_else(|e| panic!("link {p:?}: {e}"));
+                        continue;
+                    }
+                    first_of.insert(key, p.clone());
+                }
+            }
+        }
         match &node.kind {
             Kind::Dir => {
                 if apath == "/" {
